@@ -1,13 +1,105 @@
 (* C02 — Fetches respect the delegate threshold and never rewind delegate sigrefs.
-   This file contains only theorem statements closed by [exact]. *)
+   This file contains only theorem statements closed by [exact]
+   (and [vm_compute] Examples).  See props/C01.v for the reading guide. *)
 From HW Require Import lib.Base lib.SMap model.Fetch proofs.FetchProofs.
 Local Open Scope N_scope.
 
-(* Fewer valid delegates than the threshold (one fewer when the local node is
-   a delegate): the fetch reports Failed and storage is literally unchanged. *)
+(* For EVERY outcome (success, failure, every error, the mid-apply abort) and
+   for every namespace -- in particular every delegate's --: a rad/sigrefs
+   that was in local storage is still there afterwards and points at the same
+   commit or at a descendant.  ([anc] reflexive: it is "ancestor or equal".) *)
+Theorem C02_delegate_sigrefs_monotone :
+  forall anc, (forall x, anc x x = true) ->
+  forall U c L S res L' d a, sorted S ->
+    run anc U c L S = (res, L') ->
+    sigrefs_of L d = Some a ->
+    exists b, sigrefs_of L' d = Some b /\ anc a b = true.
+Proof.
+  exact (fun anc Hrefl U c L S res L' d a HS Hrun Ha =>
+    match sigrefs_monotone anc U c L S res L' d a HS Hrun Ha with
+    | ex_intro _ b (conj Hb Hor) =>
+        ex_intro _ b (conj Hb
+          match Hor with
+          | or_introl E => eq_ind a (fun x => anc a x = true) (Hrefl a) b E
+          | or_intror H => H
+          end)
+    end).
+Qed.
+
+(* Fewer valid delegates than the threshold (one fewer is required when the
+   local node is itself a delegate: [eff_threshold]): the fetch reports Failed
+   and storage is literally unchanged.  [valid] is the set the validation
+   loop ends with: delegates already in storage, minus those whose advertised
+   data failed validation, plus those that passed it. *)
 Theorem C02_below_threshold_unchanged :
   forall anc U c L S tips valid,
     plan anc U c L S = inr (tips, valid) ->
     N.of_nat (length valid) < eff_threshold c ->
     run anc U c L S = (RFailed, L).
 Proof. exact run_below_threshold. Qed.
+
+(* A successful fetch leaves at least threshold-many distinct, non-blocked
+   delegates with a rad/sigrefs in local storage. *)
+Theorem C02_success_needs_threshold :
+  forall anc U c L S L', sorted S ->
+    run anc U c L S = (RSuccess, L') ->
+    exists V : list nid, NoDup V /\ eff_threshold c <= N.of_nat (length V) /\
+      forall d, In d V -> is_delegate c d = true /\ sigrefs_of L' d <> None.
+Proof. exact success_needs_threshold. Qed.
+
+(* Non-vacuity for thresholds 1..4: with k-1 of k delegates valid the fetch
+   fails and changes nothing, with all k valid it succeeds. *)
+Definition good (n : N) : sigobj := mkSigObj [(20, n); (40, 1)] true true.
+Definition ns_good (n t : N) : namespace := [(20, n); (40, 1); (42, t)].
+Definition ex_U : universe :=
+  [(101, good 1); (102, good 2); (103, good 3); (104, good 4);
+   (201, mkSigObj [(20, 9)] true true)].   (* 201: does not sign the advertised rad/id *)
+Definition ex_cfg (ds : list nid) (thr : N) : cfg := mkCfg ds thr 9 [] None true None true.
+
+Example C02_threshold_1 :
+  run (anc_of []) ex_U (ex_cfg [1] 1) [] [(1, [(20, 9); (40, 1); (42, 201)])] = (RFailed, []) /\
+  run (anc_of []) ex_U (ex_cfg [1] 1) [] [(1, ns_good 1 101)] = (RSuccess, [(1, ns_good 1 101)]).
+Proof. split; vm_compute; reflexivity. Qed.
+
+Example C02_threshold_2 :
+  run (anc_of []) ex_U (ex_cfg [1; 2] 2) [] [(1, ns_good 1 101); (2, [(20, 9); (40, 1); (42, 201)])]
+    = (RFailed, []) /\
+  run (anc_of []) ex_U (ex_cfg [1; 2] 2) [] [(1, ns_good 1 101); (2, ns_good 2 102)]
+    = (RSuccess, [(1, ns_good 1 101); (2, ns_good 2 102)]).
+Proof. split; vm_compute; reflexivity. Qed.
+
+Example C02_threshold_3 :
+  run (anc_of []) ex_U (ex_cfg [1; 2; 3] 3) []
+      [(1, ns_good 1 101); (2, ns_good 2 102); (3, [(20, 9); (40, 1); (42, 201)])] = (RFailed, []) /\
+  run (anc_of []) ex_U (ex_cfg [1; 2; 3] 3) []
+      [(1, ns_good 1 101); (2, ns_good 2 102); (3, ns_good 3 103)]
+    = (RSuccess, [(1, ns_good 1 101); (2, ns_good 2 102); (3, ns_good 3 103)]).
+Proof. split; vm_compute; reflexivity. Qed.
+
+Example C02_threshold_4 :
+  run (anc_of []) ex_U (ex_cfg [1; 2; 3; 4] 4) []
+      [(1, ns_good 1 101); (2, ns_good 2 102); (3, ns_good 3 103); (4, [(20, 9); (40, 1); (42, 201)])]
+    = (RFailed, []) /\
+  run (anc_of []) ex_U (ex_cfg [1; 2; 3; 4] 4) []
+      [(1, ns_good 1 101); (2, ns_good 2 102); (3, ns_good 3 103); (4, ns_good 4 104)]
+    = (RSuccess, [(1, ns_good 1 101); (2, ns_good 2 102); (3, ns_good 3 103); (4, ns_good 4 104)]).
+Proof. split; vm_compute; reflexivity. Qed.
+
+(* the local node being a delegate lowers the requirement by one *)
+Example C02_local_delegate_counts :
+  run (anc_of []) ex_U (mkCfg [1; 9] 2 9 [] None true None true) [] [(1, ns_good 1 101)]
+    = (RSuccess, [(1, ns_good 1 101)]).
+Proof. vm_compute. reflexivity. Qed.
+
+(* a delegate whose advertised rad/sigrefs is behind / has diverged: nothing is rewound *)
+Example C02_behind_and_diverged :
+  (* 101 -> 102 is the history; local has 102, server advertises 101 (behind) *)
+  run (anc_of [(101, 102)]) ex_U (mkCfg [1] 1 9 [] None false None true)
+      [(1, ns_good 2 102)] [(1, ns_good 1 101)] = (RSuccess, [(1, ns_good 2 102)]) /\
+  (* local has 102, server advertises the unrelated 103 (diverged): error, nothing changes *)
+  run (anc_of [(101, 102)]) ex_U (mkCfg [1] 1 9 [] None false None true)
+      [(1, ns_good 2 102)] [(1, ns_good 3 103)] = (RErr 3, [(1, ns_good 2 102)]) /\
+  (* local has 101, server advertises 102 (ahead): fast-forward *)
+  run (anc_of [(101, 102)]) ex_U (mkCfg [1] 1 9 [] None false None true)
+      [(1, ns_good 1 101)] [(1, ns_good 2 102)] = (RSuccess, [(1, ns_good 2 102)]).
+Proof. repeat split; vm_compute; reflexivity. Qed.
